@@ -21,7 +21,10 @@ CONSTANTS N,          \* pool blocks 1..N ; 0 is genesis
           Works,      \* per-block work weights
           MaxDepth,   \* Config.MaxBranchDepth (in blocks)
           P,          \* prune depth used by Clean / Load (in blocks)
-          MaxSubs     \* max subscribers
+          MaxSubs,    \* max subscribers
+          AutoEvery   \* ProcessHeader runs the maintenance operation by itself when the header it accepted is the
+                      \* new tip and its height is a multiple of 10000; in blocks: every AutoEvery heights (0 = never,
+                      \* the case whenever the replay's chains stay below 10000 headers)
 
 Blocks == 1..N
 AllB   == 0..N
@@ -81,6 +84,15 @@ Refuse(b, v) == /\ last' = [op |-> "submit", b |-> b, verdict |-> v, delta |-> <
 \* branch, otherwise everything on the new best chain above the fork point with the previous tip.
 Delta(oldTip, newTip) == PathDown(newTip, Fork(oldTip, newTip))
 
+\* Clean keeps in memory what lies above the lowest fork point of the side branches it holds.  Side blocks that
+\* a Load may have dropped (unsure) do not count: the promise is the weaker one.
+FloorAfterClean(accS, t) ==
+    LET side == {d \in accS \ {0} : d \notin Anc(t)} \ unsure
+        cands == {Height(t) - P} \cup {Height(Fork(t, c)) : c \in side}
+    IN Max2(floorB, MinSet(cands))
+\* the automatic maintenance inside ProcessHeader
+AutoCleans(b, t) == AutoEvery > 0 /\ t = b /\ Height(b) % AutoEvery = 0
+
 \* The verdict the rules dictate for submitting pool block b
 Submit(b) ==
   IF parent[b] \notin acc THEN Refuse(b, "unknown")
@@ -94,7 +106,8 @@ Submit(b) ==
              /\ tip' = t
              /\ subs' = Announce(subs, Delta(tip, t))
              /\ last' = [op |-> "submit", b |-> b, verdict |-> "ok", delta |-> Delta(tip, t)]
-       /\ UNCHANGED <<parent, work, invalid, floorB, unsure, disk>>
+             /\ floorB' = IF AutoCleans(b, t) THEN FloorAfterClean(acc', t) ELSE floorB
+       /\ UNCHANGED <<parent, work, invalid, unsure, disk>>
 
 \* Variant used for code->spec validation: on a tie the repository may report either tip (C01 only
 \* asks for *a* tip of maximal work); which one is read from the trace.
@@ -106,7 +119,8 @@ SubmitAnyTie(b, t) ==
   /\ tip' = t
   /\ subs' = Announce(subs, Delta(tip, t))
   /\ last' = [op |-> "submit", b |-> b, verdict |-> "ok", delta |-> Delta(tip, t)]
-  /\ UNCHANGED <<parent, work, invalid, floorB, unsure, disk>>
+  /\ floorB' = IF AutoCleans(b, t) THEN FloorAfterClean(acc', t) ELSE floorB
+  /\ UNCHANGED <<parent, work, invalid, unsure, disk>>
 
 \* generation-side guard: only submissions whose outcome the properties dictate
 Dictated(b) == \/ parent[b] \notin ever                       \* true orphan
@@ -114,10 +128,7 @@ Dictated(b) == \/ parent[b] \notin ever                       \* true orphan
 NoTie == Cardinality(MaxWorkTips(acc)) = 1
 
 SideBlocks == {d \in acc \ {0} : d \notin Anc(tip)}
-\* Clean keeps in memory what lies above the lowest fork point of the side branches it holds.  Side blocks that
-\* a Load may have dropped (unsure) do not count: the promise is the weaker one.
-NewFloor == LET cands == {Height(tip) - P} \cup {Height(Fork(tip, c)) : c \in SideBlocks \ unsure}
-            IN Max2(floorB, MinSet(cands))
+NewFloor == FloorAfterClean(acc, tip)
 
 Clean == /\ floorB' = NewFloor
          /\ last' = [op |-> "clean", b |-> 0, verdict |-> "ok", delta |-> <<>>]
